@@ -18,7 +18,16 @@ def _solve_z3(smt2, timeout_ms, want_model=True, ematching_only=False):
         s.set('smt.mbqi', False)
     s.from_string(smt2)
     t0 = time.time()
-    r = s.check()
+    # z3's own timeout is not honoured inside some quantifier-instantiation loops (seen with false quantified goals): a watchdog thread
+    # interrupts the context at a hard deadline; the answer is then `unknown` (canceled)
+    import threading
+    wd = threading.Timer(timeout_ms / 1000.0 * 1.5 + 5, c.interrupt)
+    wd.daemon = True
+    wd.start()
+    try:
+        r = s.check()
+    finally:
+        wd.cancel()
     dt = time.time() - t0
     model = None
     if r == z3.sat and want_model:
@@ -123,7 +132,7 @@ def solve_one(task):
         except Exception:
             pass
     try:
-        r, dt, model, reason = _solve_z3_guarded(smt2, timeout_ms)
+        r, dt, model, reason = (_solve_z3_guarded if os.environ.get('VERIF_FORK_GUARD') else _solve_z3)(smt2, timeout_ms)
     except Exception as e:  # parse problem etc.
         return idx, 'error', 'z3', 0.0, None, 'z3 API: %r' % (e,)
     if r == 'error':
@@ -167,6 +176,44 @@ def _z3ver():
     return _ver
 
 
+def solve_one_guarded(task):
+    os.environ['VERIF_FORK_GUARD'] = '1'  # the z3 call runs in a forked grandchild that may crash or be killed without taking the worker down
+    return solve_one(task)
+
+
+def _run_pool(tasks, nproc):
+    """Process pool that survives a crashing solver: if a worker dies (z3 can segfault on hard quantified queries) the pool is broken;
+    the tasks without a result are then re-run in a second pool in which every z3 call is isolated in its own forked child."""
+    from concurrent.futures import ProcessPoolExecutor, as_completed
+    from concurrent.futures.process import BrokenProcessPool
+    ctx = multiprocessing.get_context('fork')
+    done = {}
+
+    def run(fn, todo):
+        try:
+            with ProcessPoolExecutor(max_workers=min(nproc, len(todo)), mp_context=ctx) as ex:
+                futs = [ex.submit(fn, t) for t in todo]
+                for f in as_completed(futs):
+                    try:
+                        r = f.result()
+                        done[r[0]] = r
+                    except BrokenProcessPool:
+                        raise
+                    except Exception as e:  # noqa
+                        pass
+        except BrokenProcessPool:
+            return False
+        return True
+    ok = run(solve_one, tasks)
+    todo = [t for t in tasks if t[0] not in done]
+    if todo:
+        run(solve_one_guarded, todo)
+    for t in tasks:
+        if t[0] not in done:
+            done[t[0]] = (t[0], 'unknown', 'none', 0.0, None, 'solver process died (no answer)')
+    return [done[t[0]] for t in tasks]
+
+
 def discharge(obligations, timeout_ms=20000, fallbacks=True, nproc=None):
     """Fill status/backend/seconds/model of each obligation."""
     tasks = []
@@ -191,8 +238,7 @@ def discharge(obligations, timeout_ms=20000, fallbacks=True, nproc=None):
     if len(tasks) == 1 or nproc == 1:
         results = [solve_one(t) for t in tasks]
     else:
-        with multiprocessing.get_context('fork').Pool(min(nproc, len(tasks))) as pool:
-            results = pool.map(solve_one, tasks, chunksize=1)
+        results = _run_pool(tasks, nproc)
     for idx, status, backend, secs, model, out in results:
         ob = obligations[idx]
         if ob.kind == 'cover':
